@@ -15,6 +15,7 @@ func init() {
 	register("C19", &propSpec{
 		level:       "other",
 		explanation: "Negotiation decided structurally: a Client is returned only on paths where recvVersion returned nil, and recvVersion returns nil only after the type==VERSION and version==3 tests on checked decodes, with the writer closed on every failure path; Client.ext is written only from the decoded VERSION packet and fsync is sent only under HasExtension; both servers answer INIT with version 3 and the configured extension list; the list is replaced only by one store in SetSFTPExtensions that no error return follows, from a freshly built slice whose elements come from the supported table; advertised names ⊆ names decoded by the extended-packet switch, client encoder names ⊆ the same set; an unknown extended name keeps the session open and is answered op-unsupported by both servers.",
+		quickExtra:  []BuildConfig{cfg386},
 		run:         runC19,
 		assumptions: []string{"third-party peers are out of scope"},
 	})
@@ -631,6 +632,7 @@ func runC19(c *Ctx) {
 	checkFailedConstructionReleasesSession(c, "R8")
 	// R9 (shared with C07.R16): an unknown extended request keeps the session — nobody dereferences its nil specific packet
 	checkSpecificPacketGuarded(c, "R9")
+	checkHandshakeDecodersTotal(c, "R10")
 }
 
 // checkDecodedOnlyIfConfigured (C19.R7): "advertised ⊆ served" is R5; this is the converse.  The extended-request
@@ -868,4 +870,54 @@ func checkFailedConstructionReleasesSession(c *Ctx, rule string) {
 			"NewClient can return an error here without closing the ssh session it opened: the caller gets (nil, err) and no handle, the channel and the stderr copier stay until the whole connection is closed")
 	}
 	c.check(n >= 5, rule, "returns of NewClient", p.Pos(fn.Pos()), fmt.Sprintf("%d returns", n), fmt.Sprintf("only %d returns found", n))
+}
+
+// checkHandshakeDecodersTotal (C19.R10; the prover of C08/C20 on the handshake's cone, also for GOARCH=386): the version
+// exchange is the first thing either side decodes from a peer it knows nothing about.  Every slice, index and
+// allocation of recvVersion, of the INIT/VERSION decoders and of the unmarshal helpers below them is proved in bounds:
+// a length word of 2^31 or more in an extension pair must fail cleanly, not panic NewClientPipe (32-bit int).
+func checkHandshakeDecodersTotal(c *Ctx, rule string) {
+	p := c.P
+	var roots []*ssa.Function
+	for _, n := range []string{"(*Client).recvVersion", "(*sshFxInitPacket).UnmarshalBinary", "(*sshFxVersionPacket).UnmarshalBinary"} {
+		if f := p.Func(n); f != nil {
+			roots = append(roots, f)
+		}
+	}
+	if len(roots) < 2 {
+		c.missing(rule, "(*Client).recvVersion / (*sshFxInitPacket).UnmarshalBinary")
+		return
+	}
+	cone := p.cone(roots...)
+	w := newZWorld(p)
+	ord := map[string]int{}
+	lifted := map[*ssa.Function][]zreq{}
+	n := 0
+	for _, fn := range p.LibFuncs() {
+		if !cone[fn] || outermost(fn).Package() != p.Sftp {
+			continue
+		}
+		nm := outermost(fn).Name()
+		isRoot := false
+		for _, r := range roots {
+			if r == fn {
+				isRoot = true
+			}
+		}
+		if !isRoot && !strings.HasPrefix(nm, "unmarshal") {
+			continue
+		}
+		z := w.get(fn)
+		if isClientSide(fn) {
+			z.clientAxioms()
+		}
+		for _, o := range z.obligationsOf() {
+			if o.Kind != "slice" && o.Kind != "index" && o.Kind != "make" && o.Kind != "alloc" {
+				continue
+			}
+			n++
+			decideObl(c, w, z, o, rule, oblKey(o, fn, ord), lifted)
+		}
+	}
+	c.check(n >= 5, rule, "bounds obligations in the handshake's decoders", "?", fmt.Sprintf("%d obligations", n), fmt.Sprintf("only %d obligations found in the handshake's decode cone", n))
 }
